@@ -222,6 +222,7 @@ pub enum QueryFaultKind {
 #[derive(Clone, Default)]
 pub struct SimQuerier {
     pub markers: BTreeMap<String, MarkerKind>,
+    pub marker_required_attrs: BTreeMap<String, Vec<String>>,
     pub attrs: BTreeMap<String, Vec<String>>,
     pub served: RefCell<Vec<Served>>,
     pub nqueries: Cell<u32>,
@@ -320,7 +321,7 @@ impl Querier for SimQuerier {
                         supply_fixed: false,
                         allow_governance_control: false,
                         allow_forced_transfer: false,
-                        required_attributes: vec![],
+                        required_attributes: self.marker_required_attrs.get(&r.id).cloned().unwrap_or_default(),
                     };
                     let resp = QueryMarkerResponse {
                         marker: Some(Any {
